@@ -1266,6 +1266,8 @@ pub fn worker(cfg: &WorkerCfg, emit: &mut dyn FnMut(Violation)) -> Stats {
         let needs_profile = matches!(sc.config.as_str(), "enum" | "pair" | "fsize");
         let mut budget = 1_000_000u64;
         let mut digest = 0u64;
+        let mut dump: Vec<String> = vec![format!("{:?}", sc.argv), sc.config.clone()];
+        let dumping = std::env::var("VERIF_DIGEST_DUMP").is_ok();
         if needs_profile {
             let mut p = sc.clone();
             p.rules.retain(|r| r.kind == "full-device");
@@ -1332,6 +1334,13 @@ pub fn worker(cfg: &WorkerCfg, emit: &mut dyn FnMut(Violation)) -> Stats {
                 }
             };
             digest ^= trace_digest(&out.trace).rotate_left(1) ^ fnv(format!("{:?}|{:?}", out.status, out.after).as_bytes());
+            if dumping {
+                dump.push("--- profile".into());
+                dump.extend(prof.trace.iter().map(event_line));
+                dump.push(format!("--- faulted {:?} rules={:?} fsize={:?}", out.status, sc.rules.iter().map(|r| r.short()).collect::<Vec<_>>(), sc.fsize_limit));
+                dump.extend(out.trace.iter().map(event_line));
+                dump.extend(out.after.iter().map(|(k, v)| format!("{} {:?}", k, v.as_ref().map(|b| fnv(b)))));
+            }
             account(&mut acc, &sc, &out, &reference, &env.root, seed, g, Some(&prof.trace));
         } else {
             let out = match execute(&env, &sc, budget) {
@@ -1342,9 +1351,18 @@ pub fn worker(cfg: &WorkerCfg, emit: &mut dyn FnMut(Violation)) -> Stats {
                 }
             };
             digest ^= trace_digest(&out.trace) ^ fnv(format!("{:?}|{:?}", out.status, out.after).as_bytes());
+            if dumping {
+                dump.push(format!("--- run {:?}", out.status));
+                dump.extend(out.trace.iter().map(event_line));
+                dump.extend(out.after.iter().map(|(k, v)| format!("{} {:?}", k, v.as_ref().map(|b| fnv(b)))));
+            }
             account(&mut acc, &sc, &out, &reference, &env.root, seed, g, None);
         }
         acc.stats.digests.insert(g, digest);
+        if let Ok(dir) = std::env::var("VERIF_DIGEST_DUMP") {
+            let _ = std::fs::create_dir_all(&dir);
+            let _ = std::fs::write(format!("{}/{}-{}.txt", dir, cfg.nworkers, g), dump.join("\n"));
+        }
         if acc.found >= cfg.max_violations {
             break;
         }
